@@ -7,6 +7,8 @@ pub mod rec;
 pub mod queue;
 #[cfg(kani)]
 pub mod c04;
+#[cfg(kani)]
+pub mod c12;
 
 // written by /verif/check into a scratch copy of this crate when a counterexample is replayed natively
 #[cfg(all(kani, verif_playback))]
